@@ -343,6 +343,58 @@ func init() {
 				fail("constant %s", n)
 			}
 		}
+		w.WriteString("\n/-! silently-ignoring guards: setSheetView (View list, ZoomScale bounds), setPageSetUp (FirstPageNumber) -/\n")
+		if fn := funcDecl("xlsxSheetView", "setSheetView"); fn == nil {
+			fail("func (view *xlsxSheetView) setSheetView")
+		} else {
+			var names []string
+			lo, hi := "", ""
+			ast.Inspect(fn.Body, func(n ast.Node) bool {
+				switch x := n.(type) {
+				case *ast.CompositeLit:
+					if at, ok := x.Type.(*ast.ArrayType); ok && src(at.Elt) == "string" && names == nil {
+						for _, e := range x.Elts {
+							if bl, ok := e.(*ast.BasicLit); ok {
+								names = append(names, unq(bl.Value))
+							}
+						}
+					}
+				case *ast.BinaryExpr:
+					if bl, ok := x.Y.(*ast.BasicLit); ok && strings.Contains(src(x.X), "ZoomScale") {
+						if x.Op == token.GEQ {
+							lo = bl.Value
+						}
+						if x.Op == token.LEQ {
+							hi = bl.Value
+						}
+					}
+				}
+				return true
+			})
+			if names == nil || lo == "" || hi == "" {
+				fail("setSheetView: View name list and `ZoomScale >= lo && ZoomScale <= hi`")
+			} else {
+				fmt.Fprintf(w, "def sheetViewNames : List String := %s\ndef zoomMin : Nat := %s\ndef zoomMax : Nat := %s\n", c18StrList(names), lo, hi)
+			}
+		}
+		if fn := funcDecl("xlsxWorksheet", "setPageSetUp"); fn == nil {
+			fail("func (ws *xlsxWorksheet) setPageSetUp")
+		} else {
+			g := ""
+			ast.Inspect(fn.Body, func(n ast.Node) bool {
+				if x, ok := n.(*ast.BinaryExpr); ok && x.Op == token.GTR && strings.Contains(src(x.X), "FirstPageNumber") {
+					if bl, ok := x.Y.(*ast.BasicLit); ok {
+						g = bl.Value
+					}
+				}
+				return true
+			})
+			if g == "" {
+				fail("setPageSetUp: `*opts.FirstPageNumber > <lit>`")
+			} else {
+				fmt.Fprintf(w, "def firstPageNumberAbove : Nat := %s\n", g)
+			}
+		}
 		w.WriteString("\n/-! conditional formats: type and criteria tables (styles.go) -/\n")
 		for _, n := range []string{"validType", "criteriaType", "operatorType"} {
 			c18StrMap(w, n, true)
